@@ -227,27 +227,32 @@ def judge(family, case, rec):
                                ("shift_interventions", d["shift"], forms[2])):
             if form != "omitted":
                 kw[name] = _arg(dd, form)
-        dist = model.sample(population=True, **kw)
+        sweep_first = bool(touched and (p + len(touched)) % 3 == 1)
+        dist = None if sweep_first else model.sample(population=True, **kw)
     except Exception as e:
         key = "C01:exception-" + type(e).__name__
         rec.exception_violation(key, family, case, "LGANM.sample(population=True) raised %s" % type(e).__name__, e)
         return
     rec.count("judged")
-    if touched and (p + len(touched)) % 3 == 1:
-        # parameter sweep in steps far below print precision: the same model is first asked about parameters that differ from
+    if sweep_first:
+        # the judged parameters are asked LAST: parameter sweep in steps far below print precision: the same model is first asked about parameters that differ from
         # the judged ones in the 11th significant digit only
         try:
-            def nudge(dd):
-                return {j: ((v[0] * (1 + 1e-11) + 1e-13, v[1] * (1 - 1e-11)) if isinstance(v, tuple) else v) for j, v in dd.items()}
-            kw0 = {}
-            for name, dd, form in (("do_interventions", d["do"], forms[0]), ("noise_interventions", d["noise"], forms[1]),
-                                   ("shift_interventions", d["shift"], forms[2])):
-                if form == "dict":
-                    kw0[name] = nudge(dd)
-                elif form != "omitted":
-                    kw0[name] = _arg(dd, form)
-            model.sample(population=True, **kw0)
-            model.sample(2, **kw0)
+            def nudge(dd, far):
+                if far:     # clearly different values on the same targets
+                    return {j: ((v[0] + 5.0, v[1] + 1.0) if isinstance(v, tuple) else v + 5.0) for j, v in dd.items()}
+                # differs in the 9th significant digit only
+                return {j: ((v[0] * (1 + 2e-9) + 1e-12, v[1] * (1 - 2e-9)) if isinstance(v, tuple) else v) for j, v in dd.items()}
+            for far in (True, False):
+                kw0 = {}
+                for name, dd, form in (("do_interventions", d["do"], forms[0]), ("noise_interventions", d["noise"], forms[1]),
+                                       ("shift_interventions", d["shift"], forms[2])):
+                    if form == "dict":
+                        kw0[name] = nudge(dd, far)
+                    elif form != "omitted":
+                        kw0[name] = _arg(dd, form)
+                model.sample(population=True, **kw0)
+                model.sample(2, **kw0)
             dist = model.sample(population=True, **kw)
             rec.count("history:near-equal-parameter-sweep")
         except Exception as e:
